@@ -819,7 +819,7 @@ func main() {
 	knapItems, dpItems, graphN, allPerms := 4, 6, 5, 5
 	if r.Thorough() {
 		knapItems, dpItems, graphN, allPerms = 5, 7, 6, 6
-		mapDeviations, mapAllPermsMax = 2, 4
+		mapDeviations, mapAllPermsMax, mapDeepSize = 1, 4, 5
 	}
 	// the map-order environment is process-global: the enumeration runs in single-threaded shards
 	if !r.Sharded(16) {
@@ -835,7 +835,7 @@ func main() {
 	}
 	r.Assume(
 		"small-scope: Knapsack item lists of <= 4 (thorough 5) items, weights 0..3, values 1..3; FindDpSolvers value lists of <= 6 (thorough 8) values 1..3; graphs on <= 5 (thorough 6) vertices",
-		"map-iteration order inside golib (FindDpSolvers, Best, BestAllowMinOverflow, GetMaximalCliques) is an enumerated environment answer: algz/dp.go and algz/graph.go are rebuilt from the working tree with every range-over-map redirected to vshim/vmap; default = ascending keys, deviation = another permutation (all permutations for small maps, else reverse + rotations); every script with <= 1 (thorough 2) deviations is executed for every case; BronKerbosch with X=P[:0] and every permutation of P covers every vertex order GetMaximalCliques can produce",
+		"map-iteration order inside golib (FindDpSolvers, Best, BestAllowMinOverflow, GetMaximalCliques) is an enumerated environment answer: algz/dp.go and algz/graph.go are rebuilt from the working tree with every range-over-map redirected to vshim/vmap; default = ascending keys, deviation = another permutation (all permutations for small maps, else reverse + rotations); every script with <= 1 deviation is executed for every case and every script with <= 2 deviations for inputs of <= 3 (thorough 5) items / vertices; BronKerbosch with X=P[:0] and every permutation of P covers every vertex order GetMaximalCliques can produce",
 		"tie-breakers are pure functions of the two lengths (they neither keep nor modify the slices)",
 		"not demanded (property is silent): what BestAllowMinOverflow returns when neither the exact total nor an overshoot entry exists; whether the empty graph yields no clique or one empty clique; extra overshoot entries above the least one")
 	r.Cov("map_order_deviation_bound", mapDeviations)
